@@ -147,11 +147,20 @@ impl Expression for Op {
                 };
             }
             Or => {
-                return self
-                    .lhs
-                    .resolve(ctx)?
-                    .try_or(|| self.rhs.resolve(ctx))
-                    .map_err(Into::into);
+                // `return` and `abort` raised by the right operand are not errors of the
+                // operator: they keep propagating instead of being wrapped by `try_or`
+                let mut control_flow = None;
+                let result = self.lhs.resolve(ctx)?.try_or(|| {
+                    self.rhs.resolve(ctx).inspect_err(|err| {
+                        if !matches!(err, ExpressionError::Error { .. }) {
+                            control_flow = Some(err.clone());
+                        }
+                    })
+                });
+                return match control_flow {
+                    Some(err) => std::result::Result::Err(err),
+                    None => result.map_err(Into::into),
+                };
             }
             And => {
                 return match self.lhs.resolve(ctx)? {
